@@ -170,6 +170,7 @@ class Skel:
             L.append('  CHECK(rc == EXIT_SUCCESS, "assembling the line succeeds");')
             L.append("  if (rc == EXIT_SUCCESS) {")
             L.append('    CHECK(end > start && end - start <= 15, "offset advanced by the instruction length");')
+            L.append('    CHECK(end - start <= 13, "length lemma: no instruction of the subset is longer than 13 bytes (bound used by the API-layer queries)");')
             L.append("    struct xinsn D;")
             L.append("    int n = x86dec_want(vf_buf + start, end - start, &D, %s);" % self.want)
             L.append('    CHECK(n == end - start, "the emitted bytes are exactly one instruction");')
